@@ -33,25 +33,33 @@ import (
 )
 
 type tr2 struct {
-	guards  []string // source text of the enclosing `for cond` conditions
-	fset    *token.FileSet
-	errs    []string
-	kinds   map[string]string // Go variable → kind
-	subst   map[string]string // source text of an expression → Lean replacement (xs[i] in an index loop, result[a] in a less function)
-	partial bool              // the function slices or returns (value, error): it returns Option
-	recv    string            // receiver name (its fields Entries / SortFn become parameters)
-	brk     string            // inside a `for cond` body: what `break` evaluates to ("" = not allowed)
-	loops   []string          // auxiliary loop definitions emitted in front of the function
-	fn      string            // Lean name of the function being translated
-	params  []string          // its parameters (binders) and their names, for the loop definitions
-	pnames  []string
-	usesFuel bool
-	noResult string // a function without results evaluates to the tuple of what it assigns
-	declPos  map[string]token.Pos
+	guards     []string // source text of the enclosing `for cond` conditions
+	fset       *token.FileSet
+	errs       []string
+	kinds      map[string]string // Go variable → kind
+	subst      map[string]string // source text of an expression → Lean replacement (xs[i] in an index loop, result[a] in a less function)
+	partial    bool              // the function slices or returns (value, error): it returns Option
+	recv       string            // receiver name (its fields Entries / SortFn become parameters)
+	brk        string            // inside a `for cond` body: what `break` evaluates to ("" = not allowed)
+	loops      []string          // auxiliary loop definitions emitted in front of the function
+	fn         string            // Lean name of the function being translated
+	params     []string          // its parameters (binders) and their names, for the loop definitions
+	pnames     []string
+	usesFuel   bool
+	helperDefs []string
+	file       *ast.File         // the file being translated (helpers and constants are looked up in it)
+	helpers    map[string]string // package-level helper functions translated on demand: Go name → result kind
+	joinN      int
+	hasFuel    bool   // the function takes a fuel parameter (it has a `for cond` loop or calls traverse)
+	retType    string // Lean type of the function's result
+	monadic    int    // > 0 inside a loop translated as a fold in the Option monad: an error return is `none`
+	emitter    string // name of the output channel of an emitter (a function with a channel parameter and an error result)
+	noResult   string // a function without results evaluates to the tuple of what it assigns
+	declPos    map[string]token.Pos
 }
 
 var leanTypeOfKind = map[string]string{"ents": "List Entry", "omap": "List Entry", "int": "Int", "cids": "List Hash",
-	"set": "List Hash", "smap": "List (Hash × Hash)", "entry": "Entry", "hash": "Hash", "bool": "Bool", "bytes": "Bytes", "key": "Entry", "log": "Unit", "queue": "Q", "optentry": "Option Entry"}
+	"set": "List Hash", "smap": "List (Hash × Hash)", "entry": "Entry", "hash": "Hash", "bool": "Bool", "bytes": "Bytes", "key": "Entry", "log": "Unit", "queue": "Q", "optentry": "Option Entry", "chan": "List Entry", "iteropts": "Unit"}
 
 func (t *tr2) fail(n ast.Node, why string) string {
 	t.errs = append(t.errs, fmt.Sprintf("%s: %s", why, src(t.fset, n)))
@@ -60,6 +68,10 @@ func (t *tr2) fail(n ast.Node, why string) string {
 
 func kindOfType(e ast.Expr) string {
 	switch x := e.(type) {
+	case *ast.ChanType:
+		if typeString(x.Value) == "iface.IPFSLogEntry" {
+			return "chan"
+		}
 	case *ast.ArrayType:
 		switch typeString(x.Elt) {
 		case "iface.IPFSLogEntry", "Entry":
@@ -89,6 +101,8 @@ func kindOfType(e ast.Expr) string {
 			return "log"
 		case "processQueue":
 			return "queue"
+		case "*IteratorOptions":
+			return "iteropts"
 		case "context.Context":
 			return "ctx"
 		case "iface.IPFSLogOrderedEntries":
@@ -147,6 +161,9 @@ func (t *tr2) expr(e ast.Expr) (string, string) {
 		}
 		k, ok := t.kinds[x.Name]
 		if !ok {
+			if v, isConst := t.intConst(x.Name); isConst {
+				return "(" + v + " : Int)", "int"
+			}
 			return t.fail(e, "unknown variable"), ""
 		}
 		if k == "key" {
@@ -171,6 +188,19 @@ func (t *tr2) expr(e ast.Expr) (string, string) {
 		}
 		return t.fail(e, "unary operator"), ""
 	case *ast.BinaryExpr:
+		if x.Op == token.EQL || x.Op == token.NEQ {
+			if sel, ok := x.X.(*ast.SelectorExpr); ok && isNil(x.Y) {
+				if id, ok := sel.X.(*ast.Ident); ok && t.kinds[id.Name] == "iteropts" {
+					switch sel.Sel.Name {
+					case "Amount", "LTE", "LT":
+						if x.Op == token.EQL {
+							return "opt" + sel.Sel.Name + ".isNone", "bool"
+						}
+						return "opt" + sel.Sel.Name + ".isSome", "bool"
+					}
+				}
+			}
+		}
 		a, ka := t.expr(x.X)
 		b, kb := t.expr(x.Y)
 		switch x.Op {
@@ -188,6 +218,13 @@ func (t *tr2) expr(e ast.Expr) (string, string) {
 				return "(decide (" + a + " " + op + " " + b + "))", "bool"
 			}
 		case token.EQL, token.NEQ:
+			if kb == "nil" && (ka == "iteropts" || ka == "chan") {
+				// the options and the channel are given (their nil tests are the caller's contract)
+				if x.Op == token.EQL {
+					return "false", "bool"
+				}
+				return "true", "bool"
+			}
 			if kb == "nil" && ka == "optentry" {
 				if x.Op == token.EQL {
 					return "(" + a + ").isNone", "bool"
@@ -218,6 +255,12 @@ func (t *tr2) expr(e ast.Expr) (string, string) {
 				return leanName(id.Name + "." + x.Sel.Name), k
 			}
 		}
+		if id, ok := x.X.(*ast.Ident); ok && t.kinds[id.Name] == "iteropts" {
+			switch x.Sel.Name {
+			case "LTE", "LT":
+				return "(opt" + x.Sel.Name + ".getD [])", "cids"
+			}
+		}
 		if id, ok := x.X.(*ast.Ident); ok && t.kinds[id.Name] == "log" {
 			switch x.Sel.Name {
 			case "Entries":
@@ -227,6 +270,13 @@ func (t *tr2) expr(e ast.Expr) (string, string) {
 			}
 		}
 		return t.fail(e, "selector"), ""
+	case *ast.StarExpr:
+		if sel, ok := x.X.(*ast.SelectorExpr); ok && sel.Sel.Name == "Amount" {
+			if id, ok := sel.X.(*ast.Ident); ok && t.kinds[id.Name] == "iteropts" {
+				return "(optAmount.getD 0)", "int"
+			}
+		}
+		return t.fail(e, "pointer dereference"), ""
 	case *ast.CompositeLit:
 		if k := kindOfType(x.Type); k != "" && len(x.Elts) == 0 {
 			return zeroOfKind(k), k
@@ -262,8 +312,94 @@ func (t *tr2) expr(e ast.Expr) (string, string) {
 	return t.fail(e, "expression"), ""
 }
 
+// intConst: a package-level `const name = <integer literal>` of the current file
+func (t *tr2) intConst(name string) (string, bool) {
+	if t.file == nil {
+		return "", false
+	}
+	for _, d := range t.file.Decls {
+		gd, ok := d.(*ast.GenDecl)
+		if !ok || gd.Tok != token.CONST {
+			continue
+		}
+		for _, sp := range gd.Specs {
+			vs, ok := sp.(*ast.ValueSpec)
+			if !ok || len(vs.Names) != len(vs.Values) {
+				continue
+			}
+			for i, n := range vs.Names {
+				if n.Name != name {
+					continue
+				}
+				v := src(t.fset, vs.Values[i])
+				digits := strings.TrimPrefix(v, "-")
+				if digits != "" && strings.Trim(digits, "0123456789") == "" {
+					if strings.HasPrefix(v, "-") {
+						return "-" + digits, true
+					}
+					return digits, true
+				}
+			}
+		}
+	}
+	return "", false
+}
+
+// helper: a call of an unexported package-level function of the same file — translated on demand into its own
+// definition (tagged `gohelper`, so that the equality proofs can unfold whatever helpers the code has)
+func (t *tr2) helper(x *ast.CallExpr, name string) (string, string, bool) {
+	if t.file == nil {
+		return "", "", false
+	}
+	fd := findFunc(t.file, name)
+	if fd == nil || fd.Body == nil || fd.Type.Results == nil || len(fd.Type.Results.List) != 1 {
+		return "", "", false
+	}
+	rk := kindOfType(fd.Type.Results.List[0].Type)
+	if rk == "" || leanTypeOfKind[rk] == "" {
+		return "", "", false
+	}
+	var args []string
+	i := 0
+	for _, f := range fd.Type.Params.List {
+		for range f.Names {
+			if i >= len(x.Args) {
+				return "", "", false
+			}
+			a, ka := t.expr(x.Args[i])
+			if ka != kindOfType(f.Type) {
+				return "", "", false
+			}
+			args = append(args, a)
+			i++
+		}
+	}
+	if i != len(x.Args) {
+		return "", "", false
+	}
+	if t.helpers == nil {
+		t.helpers = map[string]string{}
+	}
+	if _, done := t.helpers[name]; !done {
+		sub := &tr2{fset: t.fset, file: t.file, helpers: t.helpers}
+		t.helpers[name] = rk
+		def := sub.funcDecl(fd, lowerFirst(name))
+		if sub.hasFuel || usesSlicing(fd) {
+			t.errs = append(t.errs, "helper "+name+" needs fuel or slices")
+		}
+		t.errs = append(t.errs, sub.errs...)
+		t.helperDefs = append(t.helperDefs, "@[gohelper] "+def)
+	}
+	return "(" + lowerFirst(name) + " " + strings.Join(args, " ") + ")", rk, true
+}
+
 func (t *tr2) call(x *ast.CallExpr) (string, string) {
 	if id, ok := x.Fun.(*ast.Ident); ok {
+		if _, builtin := map[string]bool{"len": true, "append": true, "make": true, "maxInt": true, "minInt": true, "maxClockTimeForEntries": true}[id.Name]; !builtin {
+			if r, k, ok := t.helper(x, id.Name); ok {
+				return r, k
+			}
+		}
 		switch id.Name {
 		case "len":
 			if len(x.Args) == 1 {
@@ -320,6 +456,20 @@ func (t *tr2) call(x *ast.CallExpr) (string, string) {
 			return "(cmpBytes " + a + " " + b + ")", "int"
 		}
 		return t.fail(x, "bytes.Compare"), ""
+	}
+	if parts := strings.Split(s, "."); len(parts) == 3 && t.kinds[parts[0]] == "iteropts" && (parts[1] == "GTE" || parts[1] == "GT") && len(x.Args) == 0 {
+		switch parts[2] {
+		case "Defined":
+			return "opt" + parts[1] + ".isSome", "bool"
+		case "String":
+			return "(opt" + parts[1] + ".getD [])", "hash"
+		}
+	}
+	if t.recv != "" && s == t.recv+".sortedHeads" && len(x.Args) == 1 {
+		a, ka := t.expr(x.Args[0])
+		if ka == "ents" {
+			return "(sortedHeads lEntries sortDesc " + a + ")", "omap"
+		}
 	}
 	if s == "entry.NewOrderedMap" && len(x.Args) == 0 {
 		return "([] : List Entry)", "omap"
@@ -465,8 +615,11 @@ func hasTerminator(stmts []ast.Stmt) bool {
 			case *ast.FuncLit:
 				return false
 			case *ast.ForStmt, *ast.RangeStmt:
-				// a `continue` in there belongs to that loop; a `return` in a loop is rejected elsewhere
+				// a `continue`/`break` in there belongs to that loop; a `return` leaves the function
 				_ = x
+				if hasReturn([]ast.Stmt{n.(ast.Stmt)}) {
+					found = true
+				}
 				return false
 			case *ast.ReturnStmt:
 				found = true
@@ -535,6 +688,8 @@ func assignedOuter(stmts []ast.Stmt) []string {
 						}
 					}
 				}
+			case *ast.SendStmt:
+				mark(x.Chan, declared)
 			case *ast.IncDecStmt:
 				mark(x.X, declared)
 			case *ast.ExprStmt:
@@ -652,6 +807,19 @@ func (t *tr2) block(stmts []ast.Stmt, fall string, inLoop bool) string {
 	}
 	switch x := st.(type) {
 	case *ast.ReturnStmt:
+		if t.emitter != "" && len(x.Results) == 1 {
+			// an emitter returns only an error: nil = what was sent so far, anything else = `none`
+			if isNil(x.Results[0]) {
+				if inLoop {
+					return t.fail(st, "successful return inside a loop")
+				}
+				return "(some " + leanName(t.emitter) + ")"
+			}
+			return "none"
+		}
+		if inLoop && t.monadic > 0 && len(x.Results) == 2 && !isNil(x.Results[1]) {
+			return "none"
+		}
 		if len(x.Results) == 0 && !inLoop && t.noResult != "" {
 			return t.noResult
 		}
@@ -739,6 +907,13 @@ func (t *tr2) block(stmts []ast.Stmt, fall string, inLoop bool) string {
 		c, ok := x.X.(*ast.CallExpr)
 		if !ok {
 			return t.fail(st, "expression statement")
+		}
+		if sc := selChain(c.Fun); sc == "verifHook" || sc == "close" || (t.recv != "" && strings.HasPrefix(sc, t.recv+".lock.") && len(c.Args) == 0) {
+			// hooks, the log's lock (regenerated lock facts cover it) and close(output) of an emitter
+			if sc == "close" && (len(c.Args) != 1 || src(t.fset, c.Args[0]) != t.emitter) {
+				return t.fail(st, "close")
+			}
+			return t.block(rest, fall, inLoop)
 		}
 		if sc := selChain(c.Fun); t.recv != "" && strings.HasPrefix(sc, t.recv+".mu") && (strings.HasSuffix(sc, ".Lock") || strings.HasSuffix(sc, ".Unlock")) && len(c.Args) == 0 {
 			// locking is not represented here (the regenerated lock and synchronisation facts cover it)
@@ -833,6 +1008,14 @@ func (t *tr2) block(stmts []ast.Stmt, fall string, inLoop bool) string {
 			}
 		}
 		return t.fail(st, "call statement")
+	case *ast.SendStmt:
+		if src(t.fset, x.Chan) == t.emitter && t.emitter != "" {
+			v, kv := t.expr(x.Value)
+			if kv == "entry" {
+				return let(leanName(t.emitter), "("+leanName(t.emitter)+" ++ ["+v+"])")
+			}
+		}
+		return t.fail(st, "send")
 	case *ast.IfStmt:
 		return t.ifStmt(x, rest, fall, inLoop)
 	case *ast.SwitchStmt:
@@ -888,6 +1071,34 @@ func (t *tr2) assign(x *ast.AssignStmt, rest []ast.Stmt, fall string, inLoop boo
 		}
 	}
 	cont := func() string { return t.block(rest, fall, inLoop) }
+	// m, err := l.traverse(roots, amount, endHash); [unlock;] if err != nil { return … }   →   a bind
+	if len(x.Lhs) == 2 && len(x.Rhs) == 1 && x.Tok == token.DEFINE && src(t.fset, x.Lhs[1]) == "err" && t.recv != "" {
+		if c, ok := x.Rhs[0].(*ast.CallExpr); ok && selChain(c.Fun) == t.recv+".traverse" && len(c.Args) == 3 {
+			a0, k0 := t.expr(c.Args[0])
+			a1, k1 := t.expr(c.Args[1])
+			a2, k2 := t.expr(c.Args[2])
+			// the error test must follow (lock releases in between are skipped)
+			j := 0
+			for j < len(rest) {
+				if es, ok := rest[j].(*ast.ExprStmt); ok {
+					if cc, ok := es.X.(*ast.CallExpr); ok && strings.HasPrefix(selChain(cc.Fun), t.recv+".lock.") {
+						j++
+						continue
+					}
+				}
+				break
+			}
+			if j < len(rest) {
+				if ifs, ok := rest[j].(*ast.IfStmt); ok && ifs.Init == nil && ifs.Else == nil && src(t.fset, ifs.Cond) == "err != nil" && terminates(ifs.Body.List) && k0 == "omap" && k1 == "int" && k2 == "hash" {
+					v := x.Lhs[0].(*ast.Ident).Name
+					t.kinds[v] = "omap"
+					t.usesFuel = true
+					return "(match (traverse fuel lEntries sortDesc " + a0 + " " + a1 + " " + a2 + ") with | none => none | some " + leanName(v) + " => " + t.block(rest[j+1:], fall, inLoop) + ")"
+				}
+			}
+			return t.fail(x, "traverse call without the error test")
+		}
+	}
 	// v, ok := m.Get(k) on an ordered map
 	if len(x.Lhs) == 2 && len(x.Rhs) == 1 && x.Tok == token.DEFINE {
 		if c, ok := x.Rhs[0].(*ast.CallExpr); ok {
@@ -1103,6 +1314,34 @@ func (t *tr2) ifStmt(x *ast.IfStmt, rest []ast.Stmt, fall string, inLoop bool) s
 	// exits on some paths only: the continuation is duplicated into both branches, provided no name
 	// declared at the top of a branch is visible to it
 	if !captures(body, rest) && !captures(els, rest) {
+		if !inLoop && t.monadic == 0 && len(rest) > 0 && t.retType != "" {
+			// outside loops the continuation becomes a join point: an auxiliary definition over the variables in
+			// scope, called from both branches (one copy, and a name for the proofs)
+			live := t.liveVars()
+			var bind, args []string
+			for _, v := range live {
+				bind = append(bind, "("+leanName(v)+" : "+leanTypeOfKind[t.kinds[v]]+")")
+				args = append(args, leanName(v))
+			}
+			t.joinN++
+			name := fmt.Sprintf("%s_join%d", t.fn, t.joinN)
+			fuelB, fuelA := "", ""
+			if t.hasFuel {
+				fuelB, fuelA = "(fuel : Nat) ", "fuel "
+			}
+			saved := t.saveKinds()
+			restTr := strings.Join(strings.Fields(t.block(rest, fall, inLoop)), " ")
+			t.kinds = saved
+			t.loops = append(t.loops, fmt.Sprintf("def %s %s%s %s : %s :=\n  %s\n", name, fuelB, strings.Join(t.params, " "), strings.Join(bind, " "), t.retType, restTr))
+			call := "(" + name + " " + fuelA + strings.Join(t.pnames, " ") + " " + strings.Join(args, " ") + ")"
+			saved = t.saveKinds()
+			th := t.block(body, call, inLoop)
+			t.kinds = saved
+			saved = t.saveKinds()
+			el := t.block(els, call, inLoop)
+			t.kinds = saved
+			return prefix + "(if " + c + " then " + th + "\n    else " + el + ")" + closing
+		}
 		{
 			saved := t.saveKinds()
 			th := t.block(append(append([]ast.Stmt{}, body...), rest...), fall, inLoop)
@@ -1181,6 +1420,23 @@ func switchToIf(x *ast.SwitchStmt) ast.Stmt {
 	return tail
 }
 
+// liveVars: the locals in scope (not parameters, not receiver fields), in declaration order
+func (t *tr2) liveVars() []string {
+	isParam := map[string]bool{}
+	for _, p := range t.pnames {
+		isParam[p] = true
+	}
+	var vs []string
+	for v, k := range t.kinds {
+		if strings.Contains(v, ".") || isParam[leanName(v)] || leanTypeOfKind[k] == "" || k == "log" || k == "iteropts" || k == "ctx" || k == "key" {
+			continue
+		}
+		vs = append(vs, v)
+	}
+	sort.Strings(vs)
+	return t.ordered(vs)
+}
+
 func (t *tr2) saveKinds() map[string]string {
 	m := map[string]string{}
 	for k, v := range t.kinds {
@@ -1191,7 +1447,22 @@ func (t *tr2) saveKinds() map[string]string {
 
 func (t *tr2) loop(list string, elemName, elemKind string, body []ast.Stmt, rest []ast.Stmt, fall string, inLoop bool) string {
 	if hasReturn(body) {
-		return t.fail(&ast.BlockStmt{List: body}, "return inside a loop")
+		// a loop that may leave the function with an error: a fold in the Option monad (`none` = the error)
+		if !t.partial {
+			return t.fail(&ast.BlockStmt{List: body}, "return inside a loop")
+		}
+		vars := t.ordered(assignedOuter(body))
+		tup := "()"
+		if len(vars) > 0 {
+			tup = tupleOf(vars)
+		}
+		saved := t.saveKinds()
+		t.kinds[elemName] = elemKind
+		t.monadic++
+		b := t.block(body, "(some "+tup+")", true)
+		t.monadic--
+		t.kinds = saved
+		return "(match (" + list + ").foldlM (fun " + tup + " " + leanName(elemName) + " => " + b + ") " + tup + " with | none => none | some " + tup + " => " + t.block(rest, fall, inLoop) + ")"
 	}
 	vars := t.ordered(assignedOuter(body))
 	if len(vars) == 0 {
@@ -1352,6 +1623,15 @@ func (t *tr2) rangeStmt(x *ast.RangeStmt, rest []ast.Stmt, fall string, inLoop b
 	if r, ok := t.nilMarking(x, rest, fall, inLoop); ok {
 		return r
 	}
+	// for i := range xs { output <- xs[i] }
+	if ki, ok := x.Key.(*ast.Ident); ok && x.Value == nil && x.Tok == token.DEFINE && len(x.Body.List) == 1 && t.emitter != "" {
+		if snd, ok := x.Body.List[0].(*ast.SendStmt); ok && src(t.fset, snd.Chan) == t.emitter && src(t.fset, snd.Value) == src(t.fset, x.X)+"["+ki.Name+"]" {
+			xs, kx := t.expr(x.X)
+			if kx == "ents" {
+				return "(let " + leanName(t.emitter) + " := (" + leanName(t.emitter) + " ++ " + xs + "); " + t.block(rest, fall, inLoop) + ")"
+			}
+		}
+	}
 	if _, ok := x.Key.(*ast.Ident); !ok || x.Tok != token.DEFINE {
 		// (an index variable stays unknown to the translation: any translated use of it fails)
 		return t.fail(x, "range with an index")
@@ -1435,7 +1715,9 @@ func (t *tr2) forStmt(x *ast.ForStmt, rest []ast.Stmt, fall string, inLoop bool)
 }
 
 // for cond { … }  →  an auxiliary definition by recursion on fuel over the variables the body assigns:
-//   def f_loopN params : Nat → T → T | 0, st => st | fuel+1, vars => if cond then body else vars
+//
+//	def f_loopN params : Nat → T → T | 0, st => st | fuel+1, vars => if cond then body else vars
+//
 // `continue` and the end of the body call it again with the remaining fuel, `break` returns the variables.
 // (Not inside another loop.  The function gets a `fuel` parameter: what it computes when the fuel is
 // exhausted is the state reached so far — the theorems about it quantify over the fuel.)
@@ -1556,6 +1838,11 @@ func (t *tr2) funcDecl(fd *ast.FuncDecl, name string) string {
 	t.partial = usesSlicing(fd) || (fd.Type.Results != nil && len(fd.Type.Results.List) == 2)
 	var ps, names []string
 	t.noResult = ""
+	t.emitter = ""
+	t.monadic = 0
+	t.joinN = 0
+	t.retType = ""
+	t.hasFuel = needsFuel(fd)
 	if fd.Recv != nil && len(fd.Recv.List) == 1 && len(fd.Recv.List[0].Names) == 1 && typeString(fd.Recv.List[0].Type) == "*Fetcher" {
 		// a method of the fetcher: its integer fields are parameters (and results, when assigned); its queue
 		// operations go through the parameter `add` (insertion into the unordered queue of the model)
@@ -1573,6 +1860,18 @@ func (t *tr2) funcDecl(fd *ast.FuncDecl, name string) string {
 		t.recv = fd.Recv.List[0].Names[0].Name
 		ps = append(ps, "(lEntries : List Entry)", "(sortDesc : Entry → Entry → Bool)")
 		names = append(names, "lEntries", "sortDesc")
+		usesHeads := false
+		ast.Inspect(fd.Body, func(n ast.Node) bool {
+			if sel, ok := n.(*ast.SelectorExpr); ok && src(t.fset, sel) == t.recv+".heads" {
+				usesHeads = true
+			}
+			return true
+		})
+		if usesHeads {
+			t.kinds[t.recv+".heads"] = "omap"
+			ps = append(ps, "(lHeads : List Entry)")
+			names = append(names, "lHeads")
+		}
 	}
 	// entry parameters that the body compares with nil are optional
 	optional := map[string]bool{}
@@ -1601,6 +1900,16 @@ func (t *tr2) funcDecl(fd *ast.FuncDecl, name string) string {
 				continue
 			}
 			t.kinds[n.Name] = k
+			if k == "iteropts" {
+				ps = append(ps, "(optAmount : Option Int)", "(optLTE : Option (List Hash))", "(optLT : Option (List Hash))", "(optGTE : Option Hash)", "(optGT : Option Hash)")
+				names = append(names, "optAmount", "optLTE", "optLT", "optGTE", "optGT")
+				continue
+			}
+			if k == "chan" {
+				// an output channel is the list of what was sent; the function starts with nothing sent
+				t.emitter = n.Name
+				continue
+			}
 			if k == "log" {
 				// another log: the fields that are read are parameters (its entry map and its id)
 				ps = append(ps, "("+leanName(n.Name)+"Entries : List Entry)", "("+leanName(n.Name)+"ID : Bytes)")
@@ -1628,6 +1937,16 @@ func (t *tr2) funcDecl(fd *ast.FuncDecl, name string) string {
 			ret = strings.Join(tys, " × ")
 		}
 	}
+	if t.emitter != "" {
+		if fd.Type.Results == nil || len(fd.Type.Results.List) != 1 || typeString(fd.Type.Results.List[0].Type) != "error" {
+			ret = t.fail(fd.Type, "an emitter must return exactly an error")
+		} else {
+			ret = "List Entry"
+			t.partial = true
+			t.noResult = ""
+			t.kinds[t.emitter] = "chan"
+		}
+	}
 	if ret == "" {
 		ret = t.fail(fd.Type, "result type")
 	}
@@ -1636,7 +1955,11 @@ func (t *tr2) funcDecl(fd *ast.FuncDecl, name string) string {
 	}
 	// one line per definition: Lean's layout rule (a continuation line must start to the right of the
 	// enclosing `let`) would otherwise reject nested multi-line values
+	t.retType = ret
 	body := strings.Join(strings.Fields(t.block(fd.Body.List, t.noResult, false)), " ")
+	if t.emitter != "" {
+		body = "(let " + leanName(t.emitter) + " := ([] : List Entry); " + body + ")"
+	}
 	for i, l := range t.loops {
 		parts := strings.SplitN(l, "  | fuel + 1, ", 2)
 		if len(parts) == 2 {
@@ -1645,10 +1968,29 @@ func (t *tr2) funcDecl(fd *ast.FuncDecl, name string) string {
 		}
 	}
 	fuel := ""
-	if t.usesFuel {
+	if t.hasFuel {
 		fuel = "(fuel : Nat) "
 	}
 	return strings.Join(t.loops, "\n") + fmt.Sprintf("def %s %s%s : %s :=\n  %s\n", name, fuel, strings.Join(ps, " "), ret, body)
+}
+
+// needsFuel: the function has a `for cond` loop or calls the (fuel-taking) traversal
+func needsFuel(fd *ast.FuncDecl) bool {
+	found := false
+	ast.Inspect(fd.Body, func(n ast.Node) bool {
+		switch x := n.(type) {
+		case *ast.ForStmt:
+			if x.Init == nil && x.Post == nil {
+				found = true
+			}
+		case *ast.CallExpr:
+			if strings.HasSuffix(selChain(x.Fun), ".traverse") {
+				found = true
+			}
+		}
+		return true
+	})
+	return found
 }
 
 func (t *tr2) prepare(fd *ast.FuncDecl) {
@@ -1745,8 +2087,13 @@ func (t *tr2) regionDecl(fd *ast.FuncDecl, name string, marker string) string {
 		tys = append(tys, leanTypeOfKind[t.kinds[v]])
 	}
 	tup := tupleOf(vars)
+	t.joinN = 0
+	t.hasFuel = false
+	t.emitter = ""
+	t.monadic = 0
+	t.retType = "Option (" + strings.Join(tys, " × ") + ")"
 	body := strings.Join(strings.Fields(t.block(region, "(some "+tup+")", false)), " ")
-	return fmt.Sprintf("def %s %s : Option (%s) :=\n  %s\n", name, strings.Join(ps, " "), strings.Join(tys, " × "), body)
+	return strings.Join(t.loops, "\n") + fmt.Sprintf("def %s %s : %s :=\n  %s\n", name, strings.Join(ps, " "), t.retType, body)
 }
 
 func findMethod(f *ast.File, name string) *ast.FuncDecl {
@@ -1776,11 +2123,15 @@ func renderSlices(repo string) map[string]string {
 		{"Join", []job{{"log.go", []string{"difference"}}}},
 		{"Fetcher", []job{{"entry/fetcher.go", []string{"updateClock", "addNextEntry"}}}},
 		{"JoinTail", []job{{"log.go", []string{"Join@join.publish"}}}},
+		{"Iterator", []job{{"log.go", []string{"sortedHeads", "Iterator"}}}},
 	}
 	out := map[string]string{}
 	for _, g := range groups {
 		t := &tr2{fset: token.NewFileSet()}
 		var b strings.Builder
+		if g.name == "Iterator" {
+			b.WriteString("import Generated.GenTraverse\n")
+		}
 		if g.name == "JoinTail" {
 			b.WriteString("import Generated.GenHeads\nimport Generated.GenMisc\n")
 		}
@@ -1791,6 +2142,7 @@ func renderSlices(repo string) map[string]string {
 				t.errs = append(t.errs, err.Error())
 				continue
 			}
+			t.file = f
 			for _, n := range j.names {
 				if i := strings.Index(n, "@"); i > 0 {
 					fd := findMethod(f, n[:i])
@@ -1798,7 +2150,12 @@ func renderSlices(repo string) map[string]string {
 						t.errs = append(t.errs, "method "+n[:i]+" not found in "+j.file)
 						continue
 					}
-					fmt.Fprintf(&b, "/-- `%s` after the hook %s (%s) -/\n%s\n", n[:i], n[i+1:], j.file, t.regionDecl(fd, lowerFirst(n[:i])+"Tail", n[i+1:]))
+					def := t.regionDecl(fd, lowerFirst(n[:i])+"Tail", n[i+1:])
+					for _, h := range t.helperDefs {
+						b.WriteString(h + "\n")
+					}
+					t.helperDefs = nil
+					fmt.Fprintf(&b, "/-- `%s` after the hook %s (%s) -/\n%s\n", n[:i], n[i+1:], j.file, def)
 					continue
 				}
 				fd := findFunc(f, n)
@@ -1816,7 +2173,12 @@ func renderSlices(repo string) map[string]string {
 				case "log.go:difference":
 					name = "logDifference"
 				}
-				fmt.Fprintf(&b, "/-- `%s` (%s) -/\n%s\n", n, j.file, t.funcDecl(fd, name))
+				def := t.funcDecl(fd, name)
+				for _, h := range t.helperDefs {
+					b.WriteString(h + "\n")
+				}
+				t.helperDefs = nil
+				fmt.Fprintf(&b, "/-- `%s` (%s) -/\n%s\n", n, j.file, def)
 			}
 		}
 		for _, e := range t.errs {
